@@ -11,6 +11,14 @@ package internal_test
 // new watchers are replayed everything after the snapshot's revision. The
 // oracle runs once, after the publisher stopped, every live watcher was drained
 // and every watch goroutine is parked again.
+//
+// Round kinds (the kind is part of the violation signature):
+//   single-stream     every join is made while the streams are paused and is followed
+//                     at once by a reload, so one stream per key is ever active
+//   multi-stream      joins while the streams are paused; every subscriber keeps its
+//                     own stream until the next reload, streams run out of step
+//   streaming-attach  joins while events are being processed
+//   inflight-reload   (thorough) reloads start while responses are being processed
 
 import (
 	"fmt"
@@ -29,7 +37,10 @@ import (
 
 type c15Conc struct {
 	w       *c15World
-	stop    atomic.Bool // publisher finished: pumps drain and exit
+	kind    string
+	stop    bool // guarded by etcd.mu: publisher finished, pumps drain and exit
+	paused  bool // guarded by etcd.mu: pumps do not start a send
+	inSend  int  // guarded by etcd.mu: pumps between picking events and the end of their send
 	pumps   sync.WaitGroup
 	pumpErr atomic.Bool
 	sent    atomic.Int64
@@ -37,9 +48,6 @@ type c15Conc struct {
 	dupSeen atomic.Int64
 	reads   atomic.Int64
 	subsMu  sync.Mutex // guards w.subs for the readers
-	// streaming: pumps hold it shared around each send; the controller takes it
-	// exclusively to attach a subscriber at a moment when no response is in flight
-	streaming sync.RWMutex
 }
 
 func c15Closed(ch chan struct{}) bool {
@@ -59,17 +67,22 @@ func (c *c15Conc) pump(lw *c15Watch, r *rand.Rand) {
 	e := c.w.etcd
 	for {
 		e.mu.Lock()
-		for lw.cursor >= len(e.log) && !c.stop.Load() && !c15Closed(lw.dead) {
+		for {
+			if c15Closed(lw.dead) {
+				if n := len(e.log) - lw.cursor; n > 0 {
+					c.dropped.Add(int64(n))
+				}
+				e.mu.Unlock()
+				return
+			}
+			if !c.paused && lw.cursor < len(e.log) {
+				break
+			}
+			if c.stop && !c.paused && lw.cursor >= len(e.log) {
+				e.mu.Unlock()
+				return
+			}
 			e.cond.Wait()
-		}
-		if c15Closed(lw.dead) {
-			c.dropped.Add(int64(len(e.log) - lw.cursor))
-			e.mu.Unlock()
-			return
-		}
-		if lw.cursor >= len(e.log) {
-			e.mu.Unlock()
-			return
 		}
 		n := len(e.log) - lw.cursor
 		if n > 4 {
@@ -83,13 +96,17 @@ func (c *c15Conc) pump(lw *c15Watch, r *rand.Rand) {
 			}
 		}
 		lw.cursor += n
-		e.mu.Unlock()
 		if len(evs) == 0 {
+			e.mu.Unlock()
 			continue
 		}
-		c.streaming.RLock()
+		c.inSend++
+		e.mu.Unlock()
 		ok, abandoned := c15Send(lw, c15Response(evs, 0))
-		c.streaming.RUnlock()
+		e.mu.Lock()
+		c.inSend--
+		e.cond.Broadcast()
+		e.mu.Unlock()
 		if abandoned {
 			return
 		}
@@ -108,30 +125,51 @@ func (c *c15Conc) startPumps(ws []*c15Watch, r *rand.Rand) {
 	}
 }
 
-func (c *c15Conc) abandon() {
+// pause: no pump starts a send and none is in one; then the watch goroutines
+// are awaited in their loops.
+func (c *c15Conc) pause() bool {
 	e := c.w.etcd
 	e.mu.Lock()
-	for _, lw := range c.w.live {
+	c.paused = true
+	for c.inSend > 0 {
+		e.cond.Wait()
+	}
+	e.mu.Unlock()
+	return len(c.w.live) == 0 || c.w.quiesce()
+}
+
+func (c *c15Conc) resume() {
+	e := c.w.etcd
+	e.mu.Lock()
+	c.paused = false
+	e.cond.Broadcast()
+	e.mu.Unlock()
+}
+
+func (c *c15Conc) abandon(ws []*c15Watch) bool {
+	e := c.w.etcd
+	e.mu.Lock()
+	for _, lw := range ws {
 		if !c15Closed(lw.dead) {
 			close(lw.dead)
 		}
 	}
 	e.cond.Broadcast()
 	e.mu.Unlock()
-}
-
-// attach: quiet=true pauses the streams and waits until the watch goroutines
-// are parked, so that the join does not overlap the processing of an event.
-func (c *c15Conc) attach(svc string, excl bool, quiet bool, r *rand.Rand) bool {
-	w := c.w
-	if quiet {
-		c.streaming.Lock()
-		defer c.streaming.Unlock()
-		if len(w.live) > 0 && !w.quiesce() {
+	// only the pumps send: once they have left, nothing more reaches these watchers
+	for _, lw := range ws {
+		select {
+		case <-lw.pumpDone:
+		case <-time.After(c15Watchdog):
+			c.w.inconclusive("pump of watcher %d did not stop", lw.id)
 			return false
 		}
 	}
-	w.ops = append(w.ops, c15Op{Op: "sub", X: excl, S: fmt.Sprintf("quiet=%v log=%d", quiet, w.etcd.logLen())})
+	return true
+}
+
+func (c *c15Conc) doAttach(svc string, excl bool, r *rand.Rand) bool {
+	w := c.w
 	nb := w.etcd.watchCount()
 	var opts []discov.SubOption
 	if excl {
@@ -157,26 +195,13 @@ func (c *c15Conc) attach(svc string, excl bool, quiet bool, r *rand.Rand) bool {
 	return true
 }
 
-// reload: quiesced=true waits until the old watchers are parked (nothing in
-// flight) before reloading; false reloads at once, with responses possibly still
-// being processed.
-func (c *c15Conc) reload(quiesced bool, r *rand.Rand) bool {
+func (c *c15Conc) doReload(quiesced bool, r *rand.Rand) bool {
 	w := c.w
-	w.ops = append(w.ops, c15Op{Op: "reload", S: fmt.Sprintf("quiesced=%v log=%d", quiesced, w.etcd.logLen())})
-	c.abandon()
-	// only the pumps send: once they have left, nothing more reaches the old watchers
-	for _, lw := range w.live {
-		select {
-		case <-lw.pumpDone:
-		case <-time.After(c15Watchdog):
-			w.inconclusive("pump of watcher %d did not stop", lw.id)
-			return false
-		}
+	if !c.abandon(w.live) {
+		return false
 	}
-	if quiesced {
-		if !w.quiesce() {
-			return false
-		}
+	if quiesced && !w.quiesce() {
+		return false
 	}
 	nb := w.etcd.watchCount()
 	expected := internal.C15ListenedKeys(w.eps)
@@ -200,6 +225,31 @@ func (c *c15Conc) reload(quiesced bool, r *rand.Rand) bool {
 	return true
 }
 
+// attach: quiet = while the streams are paused and the watch goroutines parked;
+// collapse = followed at once (still paused) by a reload.
+func (c *c15Conc) attach(svc string, excl, quiet, collapse bool, r *rand.Rand) bool {
+	w := c.w
+	w.ops = append(w.ops, c15Op{Op: "sub", X: excl, S: fmt.Sprintf("quiet=%v collapse=%v log=%d", quiet, collapse, w.etcd.logLen())})
+	if quiet {
+		if !c.pause() {
+			return false
+		}
+		defer c.resume()
+	}
+	if !c.doAttach(svc, excl, r) {
+		return false
+	}
+	if collapse {
+		return c.doReload(true, r)
+	}
+	return true
+}
+
+func (c *c15Conc) reload(quiesced bool, r *rand.Rand) bool {
+	c.w.ops = append(c.w.ops, c15Op{Op: "reload", S: fmt.Sprintf("quiesced=%v log=%d", quiesced, c.w.etcd.logLen())})
+	return c.doReload(quiesced, r)
+}
+
 func (c *c15Conc) rewatch(r *rand.Rand) bool {
 	w := c.w
 	if len(w.live) == 0 {
@@ -208,20 +258,10 @@ func (c *c15Conc) rewatch(r *rand.Rand) bool {
 	i := r.Intn(len(w.live))
 	lw := w.live[i]
 	w.ops = append(w.ops, c15Op{Op: "wclose", N: lw.id, S: fmt.Sprintf("log=%d", w.etcd.logLen())})
-	// stop its pump first (only the pump sends on the channel), then break the stream
-	e := w.etcd
-	e.mu.Lock()
-	close(lw.dead)
-	e.cond.Broadcast()
-	e.mu.Unlock()
-	nb := w.etcd.watchCount()
-	// only the pump sends on the channel: wait until it has left before closing it
-	select {
-	case <-lw.pumpDone:
-	case <-time.After(c15Watchdog):
-		w.inconclusive("pump of watcher %d did not stop", lw.id)
+	if !c.abandon([]*c15Watch{lw}) {
 		return false
 	}
+	nb := w.etcd.watchCount()
 	close(lw.ch)
 	if !w.waitWatches(nb+1, "re-watch") {
 		return false
@@ -233,13 +273,15 @@ func (c *c15Conc) rewatch(r *rand.Rand) bool {
 	return true
 }
 
-func c15RaceRound(m *vk.M, idx int, r *rand.Rand, inflight, streamingAttach bool) (cont bool) {
+func c15RaceRound(m *vk.M, idx int, r *rand.Rand, kind string) (cont bool) {
 	svc := "c15.race"
 	w := newC15World(m, idx, r, []string{svc})
 	if w.incon {
 		return false
 	}
-	c := &c15Conc{w: w}
+	c := &c15Conc{w: w, kind: kind}
+	single := kind == "single-stream"
+	quietAttach := kind != "streaming-attach"
 	nKeys := 4 + r.Intn(6)
 	nVals := 2 + r.Intn(3)
 	val := func(k int) string { return fmt.Sprintf("10.2.0.%d:7000", 1+k%nVals) }
@@ -247,17 +289,20 @@ func c15RaceRound(m *vk.M, idx int, r *rand.Rand, inflight, streamingAttach bool
 		w.valOf[c15Key(svc, k)] = val(k)
 	}
 	// a few keys before anybody subscribes
-	present := map[int]bool{}
+	carriers := map[string]map[string]bool{}
 	for i := r.Intn(3); i > 0; i-- {
 		k := 1 + r.Intn(nKeys)
 		w.put(0, k, val(k))
-		present[k] = true
+		if carriers[val(k)] == nil {
+			carriers[val(k)] = map[string]bool{}
+		}
+		carriers[val(k)][c15Key(svc, k)] = true
 	}
-	if !c.attach(svc, false, true, r) {
+	if !c.attach(svc, false, true, single, r) {
 		return false
 	}
 	if r.Intn(2) == 0 {
-		if !c.attach(svc, true, true, r) {
+		if !c.attach(svc, true, true, single, r) {
 			return false
 		}
 	}
@@ -265,11 +310,6 @@ func c15RaceRound(m *vk.M, idx int, r *rand.Rand, inflight, streamingAttach bool
 	nPub := 60 + r.Intn(140)
 	pubSeed := r.Int63()
 	var pubWG sync.WaitGroup
-	var pubMu sync.Mutex
-	carriers := map[string]map[string]bool{}
-	for k := range present {
-		carriers[val(k)] = map[string]bool{c15Key(svc, k): true}
-	}
 	var puts, dels int64
 	pubWG.Add(1)
 	go func() {
@@ -286,17 +326,15 @@ func c15RaceRound(m *vk.M, idx int, r *rand.Rand, inflight, streamingAttach bool
 			} else {
 				e.putLocked(key, val(k))
 				puts++
-				pubMu.Lock()
 				if carriers[val(k)] == nil {
 					carriers[val(k)] = map[string]bool{}
 				}
 				carriers[val(k)][key] = true
-				pubMu.Unlock()
 			}
 			e.cond.Broadcast()
 			e.mu.Unlock()
 			if pr.Intn(3) == 0 {
-				time.Sleep(time.Duration(pr.Intn(200)) * time.Microsecond)
+				time.Sleep(time.Duration(pr.Intn(200)) * time.Microsecond) // pacing only
 			}
 		}
 	}()
@@ -330,10 +368,10 @@ func c15RaceRound(m *vk.M, idx int, r *rand.Rand, inflight, streamingAttach bool
 		time.Sleep(time.Duration(r.Intn(1500)) * time.Microsecond) // pacing only; no verdict depends on it
 		switch x := r.Intn(10); {
 		case x < 4:
-			ok = c.reload(!inflight || r.Intn(2) == 0, r)
+			ok = c.reload(kind != "inflight-reload" || r.Intn(2) == 0, r)
 		case x < 7:
 			if len(w.subs) < 5 {
-				ok = c.attach(svc, r.Intn(2) == 0, !streamingAttach, r)
+				ok = c.attach(svc, r.Intn(2) == 0, quietAttach, single, r)
 			}
 		default:
 			ok = c.rewatch(r)
@@ -344,8 +382,8 @@ func c15RaceRound(m *vk.M, idx int, r *rand.Rand, inflight, streamingAttach bool
 		ok = c.reload(true, r)
 	}
 	// drain
-	c.stop.Store(true)
 	w.etcd.mu.Lock()
+	c.stop = true
 	w.etcd.cond.Broadcast()
 	w.etcd.mu.Unlock()
 	if ok {
@@ -354,11 +392,12 @@ func c15RaceRound(m *vk.M, idx int, r *rand.Rand, inflight, streamingAttach bool
 			w.inconclusive("pumps did not drain (a watcher stopped taking events)")
 			ok = false
 		}
-	} else {
-		c.abandon()
+	} else if !w.wedged {
+		c.abandon(w.live)
 	}
 	rdStop.Store(true)
 	rdWG.Wait()
+	phase := "concurrent-" + kind
 	if ok && w.quiesce() {
 		// quiescence: publisher done, every live watcher drained, watch goroutines parked
 		w.delivered = w.etcd.logLen()
@@ -370,15 +409,16 @@ func c15RaceRound(m *vk.M, idx int, r *rand.Rand, inflight, streamingAttach bool
 				if s.excl != (pass == 1) || w.failed {
 					continue
 				}
-				w.ops = append(w.ops, c15Op{Op: "final", N: s.id, S: fmt.Sprint(s.sub.Values(), " cache=", internal.C15Cache(w.eps, svc))})
-				if w.checkSub(s, s.sub.Values(), "concurrent-final") {
+				got := s.sub.Values()
+				w.ops = append(w.ops, c15Op{Op: "final", N: s.id, S: fmt.Sprint(got, " registry cache=", internal.C15Cache(w.eps, svc))})
+				if w.checkSub(s, got, phase) {
 					// the last listener run saw the final list
 					s.mu.Lock()
 					calls, last := s.calls, append([]string(nil), s.last...)
 					s.mu.Unlock()
-					if calls > 0 && !c15Equal(c15Set(last), c15Set(s.sub.Values())) {
+					if calls > 0 && !c15Equal(c15Set(last), c15Set(got)) {
 						sort.Strings(last)
-						w.violate("C15:listener:stale-view:concurrent-final", "subscriber #%d (%s): the last of %d listener invocations saw %v, final Values()=%v", s.id, s.mode(), calls, last, s.sub.Values())
+						w.violate("C15:listener:stale-view:"+phase, "subscriber #%d (%s): the last of %d listener invocations saw %v, final Values()=%v", s.id, s.mode(), calls, last, got)
 					}
 				}
 			}
@@ -390,7 +430,7 @@ func c15RaceRound(m *vk.M, idx int, r *rand.Rand, inflight, streamingAttach bool
 	if w.incon {
 		return false
 	}
-	w.ops = append(w.ops, c15Op{Op: "concurrent-round", N: nPub, K: nKeys, M: nCtl})
+	m.Count("rounds_"+kind, 1)
 	m.Count("publisher_puts", puts)
 	m.Count("publisher_deletes", dels)
 	m.Count("events_streamed_to_watchers", c.sent.Load())
@@ -401,15 +441,15 @@ func c15RaceRound(m *vk.M, idx int, r *rand.Rand, inflight, streamingAttach bool
 	m.Count("watch_streams_broken", int64(w.nRewatch))
 	m.Count("quiescent_subscriber_checks", int64(w.nChecks))
 	m.Count("listener_invocations", w.listenerCalls())
-	m.Case(vk.Digest(idx, puts, dels, c.sent.Load(), w.nReloads, w.nAttach), c.sent.Load() > 0 && w.nChecks > 0)
-	if m.WantSample() && idx%7 == 1 {
+	m.Case(vk.Digest(idx, kind, puts, dels, c.sent.Load(), w.nReloads, w.nAttach), c.sent.Load() > 0 && w.nChecks > 0)
+	if m.WantSample() && idx%23 == 1 {
 		finals := map[string][]string{}
 		for _, s := range w.subs {
 			v := s.sub.Values()
 			sort.Strings(v)
 			finals[fmt.Sprintf("sub%d(%s)", s.id, s.mode())] = v
 		}
-		m.Sample(map[string]any{"round": idx, "publisher_ops": nPub, "streamed": c.sent.Load(), "dropped_with_abandoned_watchers": c.dropped.Load(),
+		m.Sample(map[string]any{"round": idx, "kind": kind, "publisher_ops": nPub, "streamed": c.sent.Load(), "dropped_with_abandoned_watchers": c.dropped.Load(),
 			"reloads": w.nReloads, "subscribers": w.nAttach, "final_Values": finals, "model_keys": w.etcd.snapshot(svc)})
 	}
 	wedged := w.wedged
@@ -420,17 +460,20 @@ func c15RaceRound(m *vk.M, idx int, r *rand.Rand, inflight, streamingAttach bool
 // TestVerifC15RaceConcurrent runs under the race detector.
 func TestVerifC15RaceConcurrent(t *testing.T) {
 	logx.Disable()
-	m := vk.New(t, "C15", "concurrent rounds (publisher, one streaming pump per watcher, Values() readers, controller: attach/reload/break stream); after the publisher stopped, all live watchers drained and all watch goroutines parked: plain subscribers equal the model, exclusive subscribers list only values of live keys and every value that only one key ever carried, last listener run saw the final list, no Values() result repeats a value; race detector on")
+	m := vk.New(t, "C15", "concurrent rounds (publisher, one streaming pump per watcher, Values() readers, controller: attach/reload/break stream; kinds single-stream, multi-stream, streaming-attach, inflight-reload); after the publisher stopped, all live watchers drained and all watch goroutines parked: plain subscribers equal the model, exclusive subscribers list only values of live keys and every value that only one key ever carried, last listener run saw the final list, no Values() result repeats a value; race detector on")
 	defer m.Done()
 	defer c15Wall(m, time.Now())
-	n := vk.N(60, 1200)
+	n := vk.N(300, 6000)
 	for idx := 1; idx <= n; idx++ {
 		if !m.Only(idx) {
 			continue
 		}
 		r := m.Rand("race", idx)
-		inflight := vk.Thorough() && idx%3 == 0
-		if !c15RaceRound(m, idx, r, inflight, false) {
+		kind := []string{"single-stream", "multi-stream", "single-stream", "multi-stream", "streaming-attach"}[idx%5]
+		if vk.Thorough() && idx%7 == 0 {
+			kind = "inflight-reload"
+		}
+		if !c15RaceRound(m, idx, r, kind) {
 			return
 		}
 		if idx%100 == 0 {
